@@ -5,6 +5,7 @@ import Driver.Cron
 import Driver.Multisig
 import Driver.EvmStorage
 import Driver.MinerControl
+import Driver.Vesting
 
 /-- generic stdin/stdout loop over a pure handler -/
 partial def loop {σ : Type} (h : IO.FS.Stream) (out : IO.FS.Stream) (step : σ → String → σ × String)
@@ -28,4 +29,5 @@ def main (args : List String) : IO UInt32 := do
   | ["evmstorage"] => loop stdin stdout Driver.EvmStorage.handle (Driver.EvmStorage.State.init 0); return 0
   | ["minercontrol"] =>
     loop stdin stdout Driver.MinerControl.handle (BA.MinerControl.init 0 0 []); return 0
+  | ["vesting"] => loop stdin stdout Driver.Vesting.handle ({} : Driver.Vesting.St); return 0
   | _ => IO.eprintln "usage: driver <model>"; return 2
